@@ -5,7 +5,40 @@ using namespace vt;
 
 static bool gThorough = false;
 
-static void enumerateAll(const std::function<void(const Spec &)> &f) {
+static void enumerateAll(const std::function<void(const Spec &)> &f0) {
+  // every 97th instance is also explored translated beyond 2^24 and scaled so that width x distance exceeds 2^31
+  auto f = withMagnitudes(f0, 97, {{0, 40000001, 20000003}, {1, 9001, 11003}});
+  // T: tall cells on rows split into abutting segments (both rows split at the same x): the Tetris pass keeps one
+  // free position per segment and a tall cell may end exactly on the shared boundary
+  {
+    std::vector<std::vector<RowSpec>> rowSets = {
+        {mkRow(0, 3, 0, 2, oN), mkRow(3, 9, 0, 2, oN), mkRow(0, 3, 1, 2, oFS), mkRow(3, 9, 1, 2, oFS)},
+        {mkRow(0, 4, 0, 2, oN), mkRow(4, 9, 0, 2, oN), mkRow(0, 4, 1, 2, oFS), mkRow(4, 9, 1, 2, oFS), mkRow(0, 9, 2, 2, oN)},
+    };
+    for (auto &rs : rowSets)
+      for (int n = 3; n <= (gThorough ? 4 : 3); ++n) {
+        std::vector<int> radix;
+        for (int i = 0; i < n; ++i) radix.push_back(3);
+        for (int i = 0; i < n; ++i) radix.push_back(n == 3 ? 8 : 4);
+        for (vf::Odometer od(radix); !od.done; od.next()) {
+          Spec s;
+          s.rows = rs;
+          for (int i = 0; i < n; ++i) {
+            CellSpec c;
+            c.w = 1 + od.v[i];
+            c.h = 4;
+            c.x = (n == 3 ? 1 : 2) * od.v[n + i] - 1;
+            c.y = 0;
+            s.cells.push_back(c);
+          }
+          f0(s);
+          // and with one row-high cell in between
+          Spec t = s;
+          t.cells[1].h = 2;
+          f0(t);
+        }
+      }
+  }
   // A: primary cross product, 0 deviations
   Cfg a;
   a.rhs = {2, 1};
